@@ -9,6 +9,8 @@ value-file write and BEGIN - and releases it after a virtual duration shorter
 or longer than the victim's timeout.  The lock point is enumerated over the
 seam events of the call (thorough) or sampled (quick).  DESIGN.md section 9, C14."""
 import copy
+import os
+import sqlite3
 import json
 import random
 
@@ -26,7 +28,7 @@ THOROUGH_S = 600
 BATCH = 2
 MIN_RUNS = 8
 RULE = ('one evaluation = one simulated run: a victim client performs a short setup and then ONE data operation of Cache / '
-        'FanoutCache / DjangoCache / Deque / Index (retry on or off, inline or file-backed value, statistics / LRU / LFU settings '
+        'FanoutCache / DjangoCache / Deque / Index, or one complete use of a recipe (Lock, RLock, BoundedSemaphore, Averager, memoize, memoize_stampede, throttle, barrier - all of which promise to wait) (retry on or off, inline or file-backed value, statistics / LRU / LFU settings '
         'that turn reads into writes) while a holder takes the write lock of the relevant database at seam event k of that call '
         '(k enumerated over all events of the call in the thorough tier, sampled in the quick tier; k=1 is "before the call") and '
         'keeps it for a virtual duration shorter or longer than the victim\'s timeout; the outcome is compared with the same call '
@@ -35,7 +37,7 @@ RULE = ('one evaluation = one simulated run: a victim client performs a short se
 ASSUMPTIONS = ['the holder is a raw connection holding BEGIN IMMEDIATE (what a long transaction, check() or a slow writer in another process looks like)',
                'SQLite busy timeout is emulated event-driven in virtual time']
 PROBES = ('lock_taken', 'timeout_raised', 'failure_value', 'retry_waited', 'lock_before_begin_after_file', 'lockfree_lookup_under_lock',
-          'bulk_partial_timeout')
+          'bulk_partial_timeout', 'replaced_under_lookup')
 TECHNIQUE = 'deterministic simulation with lock-contention injection: lock acquisition point enumerated over the seam events of the call, virtual-time busy timeout, before/after physical state comparison'
 LEVEL_TEXT = ('fault enumeration: calls are sampled by seed; for each call the instant at which another connection takes the write '
               'lock is enumerated over every seam event of the call (thorough tier) and the hold time is drawn on both sides of the '
@@ -49,6 +51,8 @@ LOCKFREE = ('contains', 'len', 'iter', 'volume')
 def factory(dc, path, cfg):
     kind = cfg['target']
     settings = dict(cfg.get('settings', {}))
+    if kind == 'recipe':
+        return dc.Cache(path, timeout=cfg.get('timeout', 0.05), **settings)
     if kind == 'django':
         from .. import seams
         mod = seams.install_django()
@@ -59,7 +63,7 @@ def factory(dc, path, cfg):
 
 def gen_case(seed, tier):
     rng = random.Random('%s/c14' % seed)
-    target = rng.choice(('cache', 'cache', 'cache', 'fanout', 'fanout', 'django', 'deque', 'index'))
+    target = rng.choice(('cache', 'cache', 'cache', 'fanout', 'fanout', 'django', 'deque', 'index', 'recipe'))
     mfs = rng.choice((0, 8, 8, 2 ** 15))
     big_n = {0: 12, 8: 40, 2 ** 15: 2 ** 15 + 5}[mfs]
     settings = {'disk_min_file_size': mfs}
@@ -67,7 +71,8 @@ def gen_case(seed, tier):
         settings['eviction_policy'] = rng.choice(('least-recently-stored', 'least-recently-stored', 'least-recently-used',
                                                   'least-frequently-used', 'none'))
         settings['statistics'] = rng.choice((0, 0, 1))
-    timeout = {'cache': rng.choice((0.05, 1.0, 60)), 'fanout': 0.010, 'django': 0.010, 'deque': 60, 'index': 60}[target]
+    timeout = {'cache': rng.choice((0.05, 1.0, 60)), 'fanout': 0.010, 'django': 0.010, 'deque': 60, 'index': 60,
+               'recipe': rng.choice((0.05, 1.0))}[target]
     setup = []
     keys = ['a', 'b']
     for j in range(rng.randint(0, 4)):
@@ -95,11 +100,31 @@ def gen_case(seed, tier):
     cfg = {'target': target, 'settings': settings, 'timeout': timeout, 'shards': rng.choice((1, 2, 3)), 'maxlen': None,
            'topology': 'procs', 'sched': {'kind': 'uniform'}, 'clock': {'mode': 'frozen'}, 'yield_clock': False,
            'hold': hold, 'dur': dur, 'step_cap': 80000}
+    if target in ('cache', 'fanout') and rng.random() < 0.12:
+        # a lookup of a file-backed value whose file is replaced by another process (committed) at the lock point, which
+        # then keeps the write lock: the lookup falls back to a second look under the lock, with the caller's retry choice
+        cfg['replace'] = True
+        cfg['settings'] = settings = {'disk_min_file_size': 8}
+        setup = [{'op': 'set', 'k': 'a', 'v': {'big': ['bytes', 40, 'old']}, 'retry': True}]
+        op = {'op': rng.choice(('get', 'get', 'getitem')), 'k': 'a'}
+        if op['op'] == 'get' and rng.random() < 0.6:
+            op['retry'] = True
+        if op['op'] == 'get' and rng.random() < 0.3:
+            op['default'] = 'dflt'
     return {'seed': seed, 'cfg': cfg, 'progs': {'v': setup + [{'op': 'snap'}, op, {'op': 'snap'}]}, 'faults': []}
+
+
+RECIPE_OPS = ('r_lock', 'r_rlock', 'r_sem', 'r_avg_add', 'r_avg_pop', 'r_memo', 'r_stampede', 'r_throttle', 'r_barrier')
 
 
 def gen_target_op(rng, target, keys, big_n, bulk):
     k = rng.choice(keys)
+    if target == 'recipe':
+        # the recipes promise to wait for the database (every cache call they make passes retry=True)
+        op = {'op': rng.choice(RECIPE_OPS)}
+        if op['op'] == 'r_avg_add':
+            op['v'] = rng.choice((1, 2.5, -3))
+        return op
     if target == 'deque':
         name = rng.choice(('append', 'appendleft', 'dpop', 'dpopleft', 'dpeek', 'dlist', 'dextend', 'dextendleft', 'diadd', 'drotate',
                            'dreverse', 'dclear', 'dsetitem', 'ddelitem', 'dmaxlen'))
@@ -167,6 +192,30 @@ def gen_target_op(rng, target, keys, big_n, bulk):
         if name in ('incr', 'decr'):
             op['default'] = 0
     return op
+
+
+REPLACED = b'R' * 40
+
+
+def _replace_file(directory):
+    """What another process's committed set() of a file-backed value leaves: the row names a new file, the old one is gone.
+    Done with the real sqlite3 / os modules (no seam events): it is the environment, not the client under test."""
+    rc = sqlite3.connect(os.path.join(directory, 'cache.db'), timeout=0, isolation_level=None)
+    try:
+        row = rc.execute('SELECT rowid, filename FROM Cache WHERE filename IS NOT NULL ORDER BY rowid LIMIT 1').fetchone()
+        if row is None:
+            return False
+        rel = os.path.join('zz', 'yy', 'replaced.val')
+        os.makedirs(os.path.join(directory, 'zz', 'yy'), exist_ok=True)
+        with open(os.path.join(directory, rel), 'wb') as fh:
+            fh.write(REPLACED)
+        rc.execute('UPDATE Cache SET filename = ?, size = ? WHERE rowid = ?', (rel, len(REPLACED), row[0]))
+        os.remove(os.path.join(directory, row[1]))
+        return True
+    except sqlite3.OperationalError:
+        return False
+    finally:
+        rc.close()
 
 
 def physical(path_list):
@@ -244,6 +293,8 @@ def _run(case):
             con = hold.get('con')
             if con is None:
                 return
+            if cfg.get('replace') and not state.get('replaced'):
+                state['replaced'] = _replace_file(dirs[di])
             try:
                 con.real.execute('BEGIN IMMEDIATE')
             except Exception:
@@ -334,8 +385,26 @@ def judge(case, base, run, violations, probes):
     brows_a, bfiles_a = data_rows(b['snaps'][1])
     unchanged = rows_a == rows_b and files_a == files_b
     same_as_baseline = res == bres and rows_a == brows_a and [len(f) for f in files_a] == [len(f) for f in bfiles_a]
+    if name in ('r_throttle', 'r_stampede'):
+        # these store clock readings (last admission time, measured duration): after a wait the values differ by design
+        same_as_baseline = res == bres and [len(x) for x in rows_a] == [len(x) for x in brows_a]
+    if cfg.get('replace'):
+        probes['replaced_under_lookup'] = 1
+        new_fp = ('ok', fp(REPLACED))
+        long_hold_ = cfg['hold'] == 'long'
+        waits = bool(op.get('retry')) or name == 'getitem'
+        ok = res in (bres, new_fp)
+        if not ok and not waits and long_hold_:
+            # no retry asked for and the lock outlives the timeout: Timeout (Cache) / the default (FanoutCache)
+            is_to = res is not None and res[0] == 'exc' and res[1] == 'Timeout'
+            ok = is_to if kind == 'cache' else res == failure_value(op, name)
+        if not ok:
+            violations.append({'rule': 'C14/replaced-value-lookup', 'sig': '%s.%s:%s' % (kind, name, 'retry' if waits else 'plain'),
+                               'detail': 'op %s while the value file was replaced and the lock held (%s hold %.3fs, timeout %s): result %s; '
+                                         'old value %s, new value %s' % (json.dumps(op), cfg['hold'], cfg['dur'], cfg['timeout'], res, bres, new_fp)})
+        return
     long_hold = cfg['hold'] == 'long'
-    retry = (bool(op.get('retry')) or kind in ('deque', 'index') or name in ('setitem', 'getitem', 'delitem')
+    retry = (bool(op.get('retry')) or kind in ('deque', 'index', 'recipe') or name in ('setitem', 'getitem', 'delitem')
              or (name == 'read' and kind in ('fanout', 'django')))   # Cache.read(key, retry=False) does not wait
     if kind == 'django' and name in ('set', 'add', 'touch', 'pop', 'delete', 'incr', 'decr') and 'retry' not in op:
         retry = True
@@ -347,7 +416,7 @@ def judge(case, base, run, violations, probes):
     if lock_at[0] == 'sql' and str(lock_at[1]).startswith('BEGIN') and op.get('v') is not None:
         probes['lock_before_begin_after_file'] = 1
     is_timeout = res is not None and res[0] == 'exc' and res[1] == 'Timeout'
-    if kind in ('fanout', 'django', 'deque', 'index') and is_timeout:
+    if kind in ('fanout', 'django', 'deque', 'index', 'recipe') and is_timeout:
         violations.append({'rule': 'C14/timeout-escaped', 'sig': '%s.%s' % (kind, name), 'detail': desc})
         return
     if res is not None and res[0] == 'exc' and res[1] not in ('Timeout', 'KeyError', 'IndexError', 'ValueError', 'TypeError'):
